@@ -10,8 +10,12 @@ SPEC = os.path.join(VERIF, "spec")
 HARNESS = os.path.join(VERIF, "harness")
 WORK = os.path.join(VERIF, "work")
 PWORK = os.path.join(WORK, f"p{os.getpid()}")   # per-process scratch, removed at exit
-EVID = os.path.join(VERIF, "evidence")
-REPLAYS = os.path.join(VERIF, "replays")
+# VERIF_REPO: build the harness against a scratch copy of the repository instead of /repo (mutation testing by
+# builders; registered commands never set it). VERIF_OUT: where evidence/ and replays/ go (default /verif).
+REPO = os.environ.get("VERIF_REPO", "/repo").rstrip("/")
+OUT = os.environ.get("VERIF_OUT", VERIF)
+EVID = os.path.join(OUT, "evidence")
+REPLAYS = os.path.join(OUT, "replays")
 JAR = "/opt/veriftools/tla/tla2tools.jar:/opt/veriftools/tla/CommunityModules-deps.jar"
 NCPU = os.cpu_count() or 4
 
@@ -211,6 +215,58 @@ def validate_trace(module, cfg, trace_path, timeout=300, heap="2g", extra_env=No
     return accepted, reached, total, r
 
 
+def tla_seq(xs):
+    return "<<" + ",".join(('"%s"' % x) if isinstance(x, str) else str(x) for x in xs) + ">>"
+
+
+def tla_set(xs):
+    return "{" + ",".join(('"%s"' % x) if isinstance(x, str) else str(x) for x in xs) + "}"
+
+
+def write_model(base, consts, spec="Spec", invariants=(), properties=(), postcondition=None, extra_defs="",
+                seq_consts=(), deadlock=False, constraint=None, view=None, mod="MCgen"):
+    """Generates an MC wrapper module extending `base` plus its .cfg in a scratch directory.
+    consts: {name: TLA+ text}; names listed in seq_consts (or whose value is a python list/tuple) are defined in
+    the wrapper and substituted with `<-` (TLC .cfg files accept neither tuples nor negative numbers).
+    Returns (dir, module, cfg)."""
+    defs = []
+    lines = [f"SPECIFICATION {spec}", "CONSTANTS"]
+    for k, v in consts.items():
+        if k in seq_consts or isinstance(v, (list, tuple)):
+            txt = tla_seq(v) if isinstance(v, (list, tuple)) else v
+            defs.append(f"K_{k} == {txt}")
+            lines.append(f" {k} <- K_{k}")
+        else:
+            lines.append(f" {k} = {v}")
+    if invariants:
+        lines.append("INVARIANTS " + " ".join(invariants))
+    if properties:
+        lines.append("PROPERTIES " + " ".join(properties))
+    if constraint:
+        lines.append("CONSTRAINT " + constraint)
+    if view:
+        lines.append("VIEW " + view)
+    if postcondition:
+        lines.append("POSTCONDITION " + postcondition)
+    lines.append("CHECK_DEADLOCK " + ("TRUE" if deadlock else "FALSE"))
+    text = f"---- MODULE {mod} ----\nEXTENDS {base}\n" + "\n".join(defs) + "\n" + extra_defs + "\n====\n"
+    d = scratch_spec({mod + ".tla": text, mod + ".cfg": "\n".join(lines) + "\n"})
+    return d, mod, mod + ".cfg"
+
+
+def validate_events(trace_module, consts, events, invariants=("Track",), timeout=600, seq_consts=()):
+    """Trace validation of a list of event dicts (or JSON strings) against spec/<trace_module>.tla, which must
+    follow the conventions of Trace_MtReader.tla (Rec == ndJsonDeserialize(IOEnv.TRACE), TSpec, Track, Accepted
+    printing TRACE-REACHED). Returns (accepted, reached, total, TlcResult)."""
+    d, mod, cfg = write_model(trace_module, consts, spec="TSpec", invariants=invariants, postcondition="Accepted",
+                              seq_consts=seq_consts)
+    tp = os.path.join(d, "trace.ndjson")
+    with open(tp, "w") as f:
+        for e in events:
+            f.write((e if isinstance(e, str) else json.dumps(e)) + "\n")
+    return validate_trace(mod, cfg, tp, cwd=d, timeout=timeout)
+
+
 # --------------------------------------------------------------------------- harness
 _built = {}
 
@@ -222,16 +278,26 @@ def build_harness(features=None, target=None):
         return _built[key]
     cmd = ["cargo", "build", "--release", "--offline"]
     env = {"CARGO_NET_OFFLINE": "true"}
-    tdir = os.path.join(HARNESS, "target")
+    hdir = HARNESS
+    if REPO != "/repo":
+        # shadow copy of the harness with its path dependency pointing at the scratch repository
+        hdir = os.path.join(os.path.dirname(REPO), "vh_shadow")
+        os.makedirs(hdir, exist_ok=True)
+        p = sh(["rsync", "-a", "--delete", "--exclude", "target", HARNESS + "/", hdir + "/"])
+        if p.returncode != 0:
+            raise ToolError("rsync of harness failed: " + p.stdout)
+        ct = open(os.path.join(hdir, "Cargo.toml")).read().replace('path = "/repo"', f'path = "{REPO}"')
+        open(os.path.join(hdir, "Cargo.toml"), "w").write(ct)
+    tdir = os.path.join(hdir, "target")
     if target:
-        tdir = os.path.join(HARNESS, "target", "alt_" + target)
+        tdir = os.path.join(hdir, "target", "alt_" + target)
         cmd += ["--target-dir", tdir]
     if features is not None:
         cmd += ["--no-default-features"]
         if features:
             cmd += ["--features", ",".join(features)]
     t0 = time.time()
-    p = sh(cmd, cwd=HARNESS, env=env, timeout=1800)
+    p = sh(cmd, cwd=hdir, env=env, timeout=1800)
     if p.returncode != 0:
         raise ToolError("harness build failed:\n" + p.stdout[-6000:])
     log(f"[build] harness {key} built in {time.time()-t0:.1f}s")
@@ -400,11 +466,12 @@ class Check:
 
 
 def load_known():
-    p = os.path.join(VERIF, "known_findings.json")
-    if not os.path.exists(p):
-        return []
-    with open(p) as f:
-        return json.load(f).get("findings", [])
+    out = []
+    for p in [os.path.join(VERIF, "known_findings.json")] + sorted(glob.glob(os.path.join(VERIF, "known_findings.d", "*.json"))):
+        if os.path.exists(p):
+            with open(p) as f:
+                out += json.load(f).get("findings", [])
+    return out
 
 
 def clean_work():
